@@ -99,7 +99,7 @@ GNext == /\ k < NS
 GSpec == GInit /\ [][GNext]_gvars
 
 Report == IF k = NS THEN PrintT(<<"ACC", hid>>)
-          ELSE IF StepWhy(G, St) # "" THEN PrintT(<<"AT", hid, k + 1, St.op, StepWhy(G, St)>>)
+          ELSE IF StepWhy(G, St) # "" THEN PrintT("AT|" \o ToString(hid) \o "|" \o ToString(k + 1) \o "|" \o St.op \o "|" \o StepWhy(G, St))
           ELSE TRUE
 
 =============================================================================
